@@ -15,7 +15,7 @@ open(p, "w").write(s.replace(old, new, 1))
 PY
 rc=0
 for p in "$@"; do
-  OSU_REPO="$scratch/repo" OSU_EVIDENCE_DIR="$scratch/evidence" NUMBA_CACHE_DIR="$scratch/numba" "$(dirname "$0")/check" "$p" 2>&1 | grep -E "VIOLATION|UNDECIDED|CHECKER|failed obligation|^C[0-9]+:" | head -${TAILN:-6}
+  OSU_REPO="$scratch/repo" OSU_EVIDENCE_DIR="$scratch/evidence" NUMBA_CACHE_DIR="$scratch/numba" "$(dirname "$0")/check" "$p" ${CHECK_ARGS:-} 2>&1 | grep -E "VIOLATION|UNDECIDED|CHECKER|failed obligation|^C[0-9]+:" | head -${TAILN:-6}
   r=${PIPESTATUS[0]}; echo "exit=$r"
 done
 rm -rf "$scratch"
